@@ -236,8 +236,11 @@ class ndpoly(numpy.ndarray):  # pylint: disable=invalid-name
         """Dispatch method for operators."""
         if method == "reduce" and ufunc in REDUCE_MAPPINGS:
             ufunc = REDUCE_MAPPINGS[ufunc]
+            # ufunc.reduce works along the first axis unless told otherwise
+            kwargs.setdefault("axis", 0)
         elif method == "accumulate" and ufunc in ACCUMULATE_MAPPINGS:
             ufunc = ACCUMULATE_MAPPINGS[ufunc]
+            kwargs.setdefault("axis", 0)
         elif method != "__call__":
             raise FeatureNotSupported(f"Method '{method}' not supported.")
         if ufunc not in numpoly.UFUNC_COLLECTION:
